@@ -29,8 +29,11 @@ fn check_cells_inner(case: &RegCase, st: &mut Stats, exclude_known: bool) -> Res
         return Ok(());
     }
     let w = case.width;
-    st.sample(|| json!({"html": short(&html, 300), "width": w}));
-    let r = render(&CfgSpec::plain(), html.as_bytes(), w);
+    st.sample(|| json!({"html": short(&html, 300), "width": w, "options": case.opts.brief()}));
+    if !case.opts.is_default() {
+        st.class("with_layout_options(pad/max_wrap/min_wrap/rich)");
+    }
+    let r = render(&case.opts.cfg(), html.as_bytes(), w);
     if let Some(b) = r.bad() {
         return Err(format!("{}\nhtml={}", b, html));
     }
@@ -38,7 +41,7 @@ fn check_cells_inner(case: &RegCase, st: &mut Stats, exclude_known: bool) -> Res
         st.class("toonarrow");
         return Ok(());
     };
-    let show = |m: String| format!("{} (w={})\nhtml={}\n{}", m, w, short(&html, 1200), short(&out, 1500));
+    let show = |m: String| format!("{} (w={}, options={})\nhtml={}\n{}", m, w, case.opts.brief(), short(&html, 1200), short(&out, 1500));
     // label -> (row, cell index in row), labels in serialisation (row-major) order
     let per = t.labels_per_cell();
     let mut owner: Vec<(usize, usize)> = vec![];
@@ -262,7 +265,7 @@ fn exhaustive_items(ctx: &Ctx) -> Vec<RegCase> {
     let mut v = vec![];
     for t in exhaustive_tables(r, c) {
         for w in 1..=wmax {
-            v.push(RegCase { table: t.clone(), width: w });
+            v.push(RegCase { table: t.clone(), width: w, opts: Default::default() });
         }
     }
     v
@@ -272,8 +275,8 @@ fn regressions(_ctx: &Ctx) -> Vec<RegCase> {
     let s = |span| RCell { span, kind: CellKind::Short, th: false };
     let l = |span| RCell { span, kind: CellKind::Long(vec![3, 3, 3]), th: false };
     vec![
-        RegCase { table: RTable { cols: 3, rows: vec![vec![s(1), s(1), s(1)], vec![l(2), s(1)], vec![s(1), l(2)]], head: 0 }, width: 12 },
-        RegCase { table: RTable { cols: 2, rows: vec![vec![l(1), s(1)], vec![l(2)]], head: 1 }, width: 3 },
+        RegCase { table: RTable { cols: 3, rows: vec![vec![s(1), s(1), s(1)], vec![l(2), s(1)], vec![s(1), l(2)]], head: 0 }, width: 12, opts: Default::default() },
+        RegCase { table: RTable { cols: 2, rows: vec![vec![l(1), s(1)], vec![l(2)]], head: 1 }, width: 3, opts: Default::default() },
     ]
 }
 
